@@ -4,7 +4,7 @@
 # suite has no failing package beyond the environment-caused ones that fail on the pristine tree too.
 export GOFLAGS=-mod=mod GOPROXY=off GOSUMDB=off GOTOOLCHAIN=local
 id=$1; src=${2:-/tmp/seeded}/$id; wt=/tmp/wt/verify-$id; out=/tmp/seedverify/$id.txt
-ENVFAIL="cmd/utils cmd/you/node console p2p p2p/enode you youclient"
+ENVFAIL="cmd/utils cmd/you/node console p2p p2p/enode p2p/discover you youclient accounts/abi/bind"
 rm -f $out; exec >$out 2>&1
 git -C /repo worktree remove --force $wt 2>/dev/null; git -C /repo worktree add -q --detach $wt HEAD || exit 9
 cd $wt
